@@ -13,6 +13,7 @@
      PreHook         calibrate.py:116-126 (input scale: EMA, or adopt the scale of a quantized input)
      PostHook        calibrate.py:128-147 (raw output, EMA of the output scale, re-run forward)
      Streamline      calibrate.py:149-155 (a container's post hook may clear activation_qtype of children)
+     ReEnterCalib    the same Calibration object entered again while open (`with c: ... with c:`): a second pair of hooks
      ExitCalib       calibrate.py:111-114 (pop mode, remove both handles) - normal or by exception
      Freeze          nn/qmodule.py:252-256, quantize.py:64-67
      OptStep         an optimizer update of the float weights (frozen weights receive no gradient)
@@ -25,7 +26,9 @@ CONSTANTS MaxDepth,
           Dev_C12_InputMomentum,   \* the pre-hook uses its default argument 0.9, not the context's momentum
           StreamlineTypeTest,      \* TRUE (as built): `QTensor in types` is never true for a QBytesTensor argument, so streamlining never
                                    \* records a consumer and clears the activations of EVERY child; FALSE: the documented intent
-          Dev_C10_GroupSizeLost    \* loading an unfrozen int2/int4 state into a default-quantized / requantize target loses weight_group_size
+          Dev_C10_GroupSizeLost,   \* loading an unfrozen int2/int4 state into a default-quantized / requantize target loses weight_group_size
+          Dev_C13_ReentryLeak      \* a Calibration object keeps ONE pair of hook handles: entering the same object again while it is open
+                                   \* overwrites them, so the hooks of the first entry are never removed
 
 \* <<"Linear", "Linear">> is instantiated with wide layers (192 -> 256 -> 8), so that int2/int4 weights get group sizes 96 and 128
 Archs == {<<"Linear", "Other", "Linear">>, <<"LayerNorm", "Linear">>, <<"Conv2d", "Other", "Conv2d">>, <<"Linear", "LayerNorm", "Linear">>, <<"Linear", "Linear">>}
@@ -38,7 +41,8 @@ Filters == {"all", "first", "last"}
 VARIABLES arch,     \* sequence of module kinds (a chain)
           mods,     \* per position: record (see Fresh)
           ctx,      \* stack of open calibration contexts: <<momentum, streamline>>
-          hooks,    \* global hook registry: sequence of context ids (one pre + one post hook per entry)
+          hooks,    \* global hook registry: sequence of [id, live] (one pre + one post hook per entry); a removed entry stays as a
+                    \* tombstone while its Calibration object is still open (the object's handles may still point at it)
           modes,    \* torch-function mode stack (context ids)
           saved,    \* abstract state dict or "none"
           prog,     \* history (skeleton)
@@ -81,19 +85,46 @@ Quantize(w, a, f) ==
   /\ UNCHANGED <<arch, ctx, hooks, modes, saved>>
 
 (* ---- inference ------------------------------------------------------------------------------ *)
+\* (hooks that outlived their context still fire: a leak shows up as scales drifting in a later, unrelated forward)
 Forward(x) ==
   /\ pc = "quantized" /\ Bound /\ ctx = <<>>
   /\ Log([a |-> "Forward", x |-> x])
-  /\ UNCHANGED <<arch, mods, ctx, hooks, modes, saved, pc>>
+  /\ mods' = IF \A k \in 1..Len(hooks) : ~hooks[k].live THEN mods
+             ELSE [i \in 1..Len(mods) |-> IF mods[i].q /\ mods[i].aq # "none"
+                                          THEN [mods[i] EXCEPT !.insc = Append(@, <<"leaked", x>>), !.outsc = Append(@, <<"leaked", x>>)]
+                                          ELSE mods[i]]
+  /\ UNCHANGED <<arch, ctx, hooks, modes, saved, pc>>
 
 (* ---- calibration ----------------------------------------------------------------------------- *)
 EnterCalib(m, s) ==
   /\ pc = "quantized" /\ Bound /\ Len(ctx) < 2
   /\ LET id == Len(prog) + 1 IN
        /\ ctx' = Append(ctx, [id |-> id, momentum |-> m, streamline |-> s])
-       /\ hooks' = Append(hooks, id) /\ modes' = Append(modes, id)
+       /\ hooks' = Append(hooks, [id |-> id, live |-> TRUE]) /\ modes' = Append(modes, id)
   /\ Log([a |-> "EnterCalib", momentum |-> m, streamline |-> s])
   /\ UNCHANGED <<arch, mods, saved, pc>>
+
+\* the innermost open Calibration object is entered once more: same momentum, same streamline table, a second pair of hooks
+ReEnterCalib ==
+  /\ pc = "quantized" /\ Bound /\ ctx # <<>> /\ Len(ctx) < 3
+  /\ LET c == ctx[Len(ctx)] IN
+       /\ ctx' = Append(ctx, c)
+       /\ hooks' = Append(hooks, [id |-> c.id, live |-> TRUE]) /\ modes' = Append(modes, c.id)
+  /\ Log([a |-> "ReEnterCalib"])
+  /\ UNCHANGED <<arch, mods, saved, pc>>
+
+\* __exit__ of the object `id`: remove the hooks its handles point at.  Intended: the pair registered by the matching __enter__
+\* (the last live one of this object).  As built (Dev_C13_ReentryLeak): the pair registered by the LAST __enter__ of the object,
+\* even when that pair has already been removed.  Tombstones go once the object is not open any more.
+LiveHooks(hs) == SelectSeq(hs, LAMBDA h : h.live)
+IdsOf(cs) == {cs[k].id : k \in 1..Len(cs)}
+ExitHooks(hs, id, rest) ==
+  LET cand == {k \in 1..Len(hs) : hs[k].id = id /\ (Dev_C13_ReentryLeak \/ hs[k].live)}
+      k == CHOOSE k \in cand : \A j \in cand : j <= k
+      marked == IF cand = {} THEN hs ELSE [hs EXCEPT ![k].live = FALSE]
+  IN SelectSeq(marked, LAMBDA h : h.live \/ h.id \in IdsOf(rest))
+RECURSIVE Unwind(_, _)
+Unwind(cs, hs) == IF cs = <<>> THEN hs ELSE LET rest == SubSeq(cs, 1, Len(cs) - 1) IN Unwind(rest, ExitHooks(hs, cs[Len(cs)].id, rest))
 
 \* one batch through the model inside the open context(s): every open context's hooks fire
 HookMomentum(c) == IF Dev_C12_InputMomentum THEN "m90" ELSE c.momentum
@@ -130,13 +161,14 @@ RaiseIn(b, k) ==
                                     !.outsc = FoldAll(mods[i].outsc, ctx, b, FALSE)]
                ELSE mods[i]]
   \* the exception unwinds every open context
-  /\ ctx' = <<>> /\ hooks' = <<>> /\ modes' = <<>>
+  /\ ctx' = <<>> /\ hooks' = Unwind(ctx, hooks) /\ modes' = <<>>
   /\ Log([a |-> "RaiseIn", batch |-> b, k |-> k])
   /\ UNCHANGED <<arch, saved, pc>>
 
 ExitCalib ==
   /\ ctx # <<>> /\ Bound
-  /\ ctx' = SubSeq(ctx, 1, Len(ctx) - 1) /\ hooks' = SubSeq(hooks, 1, Len(hooks) - 1) /\ modes' = SubSeq(modes, 1, Len(modes) - 1)
+  /\ ctx' = SubSeq(ctx, 1, Len(ctx) - 1) /\ modes' = SubSeq(modes, 1, Len(modes) - 1)
+  /\ hooks' = ExitHooks(hooks, ctx[Len(ctx)].id, ctx')
   /\ Log([a |-> "ExitCalib"])
   /\ UNCHANGED <<arch, mods, saved, pc>>
 
@@ -194,16 +226,17 @@ ForeignBatch ==
   /\ UNCHANGED <<arch, mods, ctx, hooks, modes, saved, pc>>
 
 ActionsOf(f) ==
-  CASE f = "calib"  -> {"Quantize", "EnterCalib", "CalibBatch", "ExitCalib", "Forward", "RaiseIn"}
+  CASE f = "calib"  -> {"Quantize", "EnterCalib", "ReEnterCalib", "CalibBatch", "ExitCalib", "Forward", "RaiseIn"}
     [] f = "serial" -> {"Quantize", "EnterCalib", "CalibBatch", "ExitCalib", "Freeze", "Save", "Load", "Forward"}
     [] f = "freeze" -> {"Quantize", "EnterCalib", "CalibBatch", "ExitCalib", "Freeze", "DeepCopy", "Forward"}
     [] f = "train"  -> {"Quantize", "OptStep", "Forward", "Freeze"}
-    [] OTHER        -> {"Quantize", "EnterCalib", "CalibBatch", "ExitCalib", "Forward", "RaiseIn", "Freeze", "Save", "Load", "DeepCopy", "OptStep", "LibCall", "ForeignBatch"}
+    [] OTHER        -> {"Quantize", "EnterCalib", "ReEnterCalib", "CalibBatch", "ExitCalib", "Forward", "RaiseIn", "Freeze", "Save", "Load", "DeepCopy", "OptStep", "LibCall", "ForeignBatch"}
 On(a) == a \in ActionsOf(Focus)
 
 ActQuantize   == \E w \in WQs, a \in AQs, f \in Filters : Quantize(w, a, f)
 ActForward    == On("Forward") /\ \E x \in {"x1", "x2"} : Forward(x)
 ActEnterCalib == On("EnterCalib") /\ \E m \in Momenta, s \in BOOLEAN : EnterCalib(m, s)
+ActReEnter    == On("ReEnterCalib") /\ ReEnterCalib
 ActCalibBatch == On("CalibBatch") /\ \E b \in Batches : CalibBatch(b)
 ActRaiseIn    == On("RaiseIn") /\ \E b \in Batches, k \in 1..3 : RaiseIn(b, k)
 ActExitCalib  == On("ExitCalib") /\ ExitCalib
@@ -216,7 +249,7 @@ ActSave       == On("Save") /\ \E s \in {"none", "pickle", "weights_only", "safe
 \* "otherq": the target was quantized with another weight qtype than the saved model (the state_dict decides)
 ActLoad       == On("Load") /\ \E t \in {"default", "same", "requantize", "otherq"} : Load(t)
 
-Next == ActQuantize \/ ActForward \/ ActEnterCalib \/ ActCalibBatch \/ ActRaiseIn \/ ActExitCalib
+Next == ActQuantize \/ ActForward \/ ActEnterCalib \/ ActReEnter \/ ActCalibBatch \/ ActRaiseIn \/ ActExitCalib
         \/ ActFreeze \/ ActOptStep \/ ActDeepCopy \/ ActSave \/ ActLoad \/ ActLibCall \/ ActForeign
 
 (* ---- abstract properties ------------------------------------------------------------------------------ *)
@@ -242,7 +275,7 @@ EmaLawStep ==
                 /\ mods'[i].outsc = Append(mods[i].outsc, <<ctx[1].momentum, b>>)
                 /\ (~FedQuantized(i)) => mods'[i].insc = Append(mods[i].insc, <<ctx[1].momentum, b>>)]_vars
 \* C13: the registries mirror the open contexts, so leaving every context restores them
-CalibrationScoped == Len(hooks) = Len(ctx) /\ Len(modes) = Len(ctx) /\ (ctx = <<>> => (hooks = <<>> /\ modes = <<>>))
+CalibrationScoped == Len(LiveHooks(hooks)) = Len(ctx) /\ Len(modes) = Len(ctx) /\ (ctx = <<>> => (hooks = <<>> /\ modes = <<>>))
 \* growth beyond the listed properties (evidence only): with streamlining as documented, a module whose quantized output
 \* is consumed by a quantization-preserving function keeps quantizing its activations
 StreamlineKeepsConsumers ==
